@@ -4,8 +4,8 @@ import "time"
 
 var plans = map[string]plan{
 	"C01": {
-		Quick:    tierPlan{Shards: 12, Checks: 4, Shrink: "60s", Limit: 20 * time.Minute},
-		Thorough: tierPlan{Shards: 16, Checks: 90, Shrink: "5m", Limit: 3 * time.Hour},
+		Quick:    tierPlan{Shards: 16, Checks: 6, Shrink: "60s", Limit: 20 * time.Minute},
+		Thorough: tierPlan{Shards: 16, Checks: 120, Shrink: "5m", Limit: 3 * time.Hour},
 		Rule: "each case is a generated package (types + 6-24 derive calls over the supported grammar, in function/method/var/closure/_test/nested/curried call-site forms) run through the freshly built goderive and judged by exit status, gofmt, go/types (incl. test variant), call resolution into derived.gen.go and go vet's compile step; non-trivial = package has a nested derive call, an imported struct with unexported fields, two same-named imports in use, a map (helper chain compare->sort->keys) or unique (hash+equal helpers); distinct by source hash",
 		Assumptions: []string{"go/types, gofmt and cmd/compile are correct", "supported set per plugin taken from plugin docs / Readme (DESIGN.md section 4)"},
 	},
@@ -82,8 +82,8 @@ var plans = map[string]plan{
 		Assumptions: []string{"the only wall-clock verdict: a hang is asserted after 60 s and again after 150 s (about 100x a normal run)", "whether the message names the call or type is not judged"},
 	},
 	"C08": {
-		Quick:    tierPlan{Shards: 16, Checks: 2, Shrink: "60s", Limit: 30 * time.Minute},
-		Thorough: tierPlan{Shards: 16, Checks: 25, Shrink: "5m", Limit: 4 * time.Hour},
+		Quick:    tierPlan{Shards: 16, Checks: 8, Shrink: "60s", Limit: 30 * time.Minute},
+		Thorough: tierPlan{Shards: 16, Checks: 60, Shrink: "5m", Limit: 4 * time.Hour},
 		Rule: "each case is a generated module (package p with 1-3 families of mutually assignable types - several named types and the unnamed type over one underlying type - used side by side as struct fields under hash/equal/compare/clone/gostring/deepcopy plus 2-12 random calls, package q importing p with calls of its own); judged: one sha256 of p/derived.gen.go over N identical fresh runs (quick 6, thorough 25) and over 6 further invocation spellings (., ./..., import path, package list in both orders); non-trivial = >= 2 tie members or >= 3 plugins; distinct by sources",
 		Assumptions: []string{"map iteration order is re-randomised by the Go runtime on every run; a very skewed choice could survive N runs"},
 	},
@@ -104,5 +104,11 @@ var plans = map[string]plan{
 		Thorough: tierPlan{Shards: 16, Checks: 120, Shrink: "5m", Limit: 4 * time.Hour},
 		Rule: "each case is a generated package (3-12 calls of structural and list plugins over the supported grammar) emitted with default names and with names rewritten for a drawn prefix map: a global -prefix, 1-4 per-plugin overrides (optionally on top of a global prefix), or nested overrides where one plugin's prefix is a proper prefix of another's (2-3 levels, either plugin may have the longer default prefix); the customised run uses the registered plugin order and one of three binaries built from a scratch copy of the repository whose registration list is reversed / rotated / sorted; judged: customised run succeeds, both outputs canonicalised (every generated function renamed to <plugin by longest configured prefix>(parameter types), declarations sorted) are equal, and for a global prefix the text is identical after substituting the prefix; non-trivial = nested overrides or >= 3 overrides; distinct by (flags, sources)",
 		Assumptions: []string{"the registration list in main.go keeps the form 'x.NewPlugin(),' per line (otherwise the order variants are skipped and said so in the notes)"},
+	},
+	"C07": {
+		Quick:    tierPlan{Shards: 16, Checks: 6, Shrink: "60s", Limit: 30 * time.Minute},
+		Thorough: tierPlan{Shards: 16, Checks: 150, Shrink: "5m", Limit: 4 * time.Hour},
+		Rule: "each case is a history of 2-6 (thorough 2-10) edits over a generated package (a struct with 1-4 fields, a map type, 1-4 derive calls incl. nested ones whose argument type is the result type of another derive call: deriveSort(deriveKeys(m)), deriveUnique(deriveSort(l)), deriveHash(deriveSort(deriveKeys(m))) ..., optionally one call in a _test file): retype / add / remove a field, add / remove / re-target a call, change the type that flows between derive calls, rename the struct type, remove every call; after each edit, optionally, derived.gen.go is replaced by the first k bytes of the previous or of the new output (k at structural cut points: inside the header comment, package clause, import block, a signature, a body, or uniform); then goderive runs ONCE; every step is one evaluation; judged: exit 0, file byte-identical to a from-scratch run on a copy of the same sources (absent in both when no calls remain), final state type-checks; non-trivial = step whose old derived file is stale for a type used by a call, or truncated; distinct by (sources, old file)",
+		Assumptions: []string{"the from-scratch output is the reference (C08 checks that it is unique)"},
 	},
 }
